@@ -113,6 +113,7 @@ class Sub:
     shards: dict = field(default_factory=lambda: {'quick': 2, 'thorough': 16})
     steps: dict = field(default_factory=lambda: {'quick': 30, 'thorough': 50})
     exhaustive: bool = False
+    target: str | None = None  # kind 'fuzz': name of the atheris target in pbt/fuzz_targets.py
 
 
 def canon(case) -> str:
@@ -270,6 +271,8 @@ def _worker(args):
             _run_enum(mod, sub, res, findings, shard, nshards, tier)
         elif sub.kind == 'hyp':
             _run_hyp(mod, sub, res, findings, derive_seed(seed, prop, subname, shard), n, tier, t0, budget_s)
+        elif sub.kind == 'fuzz':
+            _run_fuzz(mod, sub, res, findings, derive_seed(seed, prop, subname, shard), n, tier, shard)
         elif sub.kind == 'machine':
             _run_machine(mod, sub, res, findings, derive_seed(seed, prop, subname, shard), n, tier, t0, budget_s)
         else:
@@ -402,6 +405,56 @@ def _run_machine(mod, sub, res, findings, seedval, n, tier, t0, budget_s):
             res.excluded[f['key']] += 1
         else:
             res.violation = (clause, detail, case)
+
+
+def _run_fuzz(mod, sub, res, findings, seedval, n, tier, shard):
+    """coverage-guided campaign (atheris / libFuzzer) in a subprocess; the target carries the property's oracle and writes the
+    failing case as JSON before it raises.  Even shards start from an empty corpus, odd shards from a few small inputs."""
+    import shutil
+    import subprocess
+    import tempfile
+
+    if n <= 0:
+        return
+    try:
+        subprocess.run([sys.executable, '-c', 'import atheris'], check=True, capture_output=True, env=dict(os.environ))
+    except Exception:  # noqa: BLE001
+        res.labels['atheris-not-installed'] += 1
+        return
+    d = tempfile.mkdtemp(prefix='fuzz_')
+    try:
+        corpus = os.path.join(d, 'corpus')
+        os.makedirs(corpus)
+        if shard % 2:
+            for k in range(6):
+                with open(os.path.join(corpus, f'seed{k}'), 'wb') as f:
+                    f.write(bytes((37 * k + 11 * j) % 251 for j in range(8 + 9 * k)))
+        stats, replay = os.path.join(d, 'stats.json'), os.path.join(d, 'replay.json')
+        cmd = [sys.executable, '-m', 'pbt.fuzz_targets', sub.target, stats, replay, f'-runs={n}', f'-seed={seedval % 2**31 or 1}', '-max_len=160', '-len_control=0',
+               f'-artifact_prefix={d}/', corpus]
+        p = subprocess.run(cmd, cwd=ROOT, capture_output=True, text=True, timeout=3 * 3600)
+        st = json.load(open(stats)) if os.path.exists(stats) else {}
+        done = [ln for ln in p.stderr.splitlines() if ln.startswith('Done ')]
+        execs = int(done[-1].split()[1]) if done else int(st.get('execs', 0))
+        res.evaluations += execs
+        res.n_nontrivial += int(st.get('nontrivial', 0) * (execs / max(1, st.get('execs', 1))))
+        res.skipped += int(st.get('skipped', 0))
+        for k, v in st.get('labels', {}).items():
+            res.labels[k] += v
+        res.labels['corpus-seeded' if shard % 2 else 'corpus-empty'] += 1
+        res.samples.extend(st.get('samples', [])[:2])
+        if os.path.exists(replay):
+            r = json.load(open(replay))
+            v = Violation(r['clause'], r['detail'])
+            f = match_open_finding(mod, findings, sub.name, r['case'], v)
+            if f:
+                res.excluded[f['key']] += 1
+            else:
+                res.violation = (r['clause'], r['detail'], r['case'])
+        elif p.returncode != 0:
+            res.error = 'fuzz target exited %d\n%s' % (p.returncode, p.stderr[-2000:])
+    finally:
+        shutil.rmtree(d, ignore_errors=True)
 
 
 # --------------------------------------------------------------------------- driver
@@ -543,7 +596,9 @@ def main(argv=None):
             violations.append((r.sub, clause, detail, path))
     for s in subs:
         ps = per_sub[s.name]
-        ps['distinct_nontrivial'] = ps['nontrivial'] if s.kind == 'enum' else len(all_hashes[s.name])
+        ps['distinct_nontrivial'] = ps['nontrivial'] if s.kind == 'enum' else (0 if s.kind == 'fuzz' else len(all_hashes[s.name]))
+        if s.kind == 'fuzz':
+            ps['nontrivial_not_deduplicated'] = ps['nontrivial']
         ps['labels'] = dict(sorted(ps['labels'].items()))
         if ps['stopped_early'] or (s.kind == 'enum' and ps['skipped'] + ps['evaluations'] + sum(ps['excluded_known'].values()) < (s.size(a.tier) if s.size else 0)):
             ps['exhaustive'] = False
